@@ -1297,3 +1297,38 @@ func (p *Program) unwrapThin(fn *ssa.Function) *ssa.Function {
 	}
 	return fn
 }
+
+// freshValue: v is an object created here — an allocation, or the result of a module function all of whose returns are
+// fresh values (constructors, through thin wrappers).
+func (p *Program) freshValue(v ssa.Value, depth int) bool {
+	if depth > 3 {
+		return false
+	}
+	switch x := strip(v).(type) {
+	case *ssa.Alloc:
+		return true
+	case *ssa.Phi:
+		for _, e := range x.Edges {
+			if !p.freshValue(e, depth) {
+				return false
+			}
+		}
+		return len(x.Edges) > 0
+	case *ssa.Call:
+		y := x.Call.StaticCallee()
+		if y == nil || !p.inModule(y) || len(y.Blocks) == 0 || y.Signature.Results().Len() < 1 {
+			return false
+		}
+		n := 0
+		for _, b := range y.Blocks {
+			if ret, ok := b.Instrs[len(b.Instrs)-1].(*ssa.Return); ok {
+				n++
+				if !p.freshValue(retOperand(ret, 0), depth+1) {
+					return false
+				}
+			}
+		}
+		return n > 0
+	}
+	return false
+}
